@@ -1,14 +1,13 @@
 import JominiModel.Props.C15
-open Jomini.Props.C15
-#print axioms C15_escape_opaque
-#print axioms C15_unescape
-#print axioms C15_quoted_output
-#print axioms C15_state_reflects_calls
-#print axioms C15_state_payload_independent
-#print axioms C15_state_after_calls
-#print axioms C15_total
-#print axioms C15_end_on_empty_stack
-#print axioms C15_total_run
-#print axioms C15_error_state_unreachable
-#print axioms C15_ints
-#print axioms C15_lexemes_partial
+#print axioms Jomini.Props.C15.C15_escape_opaque
+#print axioms Jomini.Props.C15.C15_unescape
+#print axioms Jomini.Props.C15.C15_quoted_output
+#print axioms Jomini.Props.C15.C15_state_reflects_calls
+#print axioms Jomini.Props.C15.C15_state_payload_independent
+#print axioms Jomini.Props.C15.C15_state_after_calls
+#print axioms Jomini.Props.C15.C15_total
+#print axioms Jomini.Props.C15.C15_end_on_empty_stack
+#print axioms Jomini.Props.C15.C15_total_run
+#print axioms Jomini.Props.C15.C15_error_state_unreachable
+#print axioms Jomini.Props.C15.C15_ints
+#print axioms Jomini.Props.C15.C15_lexemes_partial
